@@ -249,6 +249,9 @@ func init() {
 	add("C12", "G-GLOBAL")
 	add("C18", "G-GLOBAL")
 	add("C13", "G-GLOBAL")
+	add("C15", "G-GLOBAL")
+	add("C17", "G-GLOBAL")
+	add("C02", "G-GLOBAL")
 	add("C17", "T-SCAN")
 	add("C06", "T-SCAN")
 	registerRule(&RuleDef{ID: "MAX-ONE", Min: 1, Doc: "the update engine splits single-valued sets off at max == 1, like the mapper and the generator", Run: ruleMAXONE})
